@@ -233,7 +233,10 @@ func AttrCellArgs() []*Args {
 	var out []*Args
 	for m := 0; m < 8; m++ {
 		out = append(out, &Args{S: [4]string{"", `v"1`, "v2", "v3"}, B: [4]bool{m&1 != 0, m&2 != 0, m&4 != 0, false}, N: 1,
-			L: []string{}, At: map[string]any{"data-s1": "s<1", "data-s2": true, "hidden2": false}})
+			L: []string{}, At: map[string]any{"data-s1": "s<1", "data-s2": true, "hidden2": false,
+				"data-s3": map[string]any{"k": "pbool", "b": m&4 != 0}, "data-s4": map[string]any{"k": "pstring", "s": "p\"s"},
+				"data-s5": map[string]any{"k": "kvsb", "s": "kv", "b": m&2 != 0}, "data-s6": map[string]any{"k": "kvbb", "b": m&1 != 0, "b2": m&2 != 0},
+				"data-s7": map[string]any{"k": "fbool", "b": m&4 == 0}, "data-s8": map[string]any{"k": "nilpbool"}, "data-s9": map[string]any{"k": "nilpstring"}}})
 	}
 	return out
 }
